@@ -178,6 +178,16 @@ fn run_case<A: Alphabet>(case: u64, rng: &mut Rng, rep: &mut Report, alpha: &str
                 r[rng.below(k - 1)] = 1;
             }
         }
+        if rng.chance(0.05) {
+            // the largest legal counts: a position total of 2^32 or more
+            let i = rng.below(w);
+            counts[i][rng.below(k - 1)] = 3_000_000_000;
+            counts[i][rng.below(k - 1)] = u32::MAX - rng.below(2) as u32;
+            let j2 = rng.below(k - 1);
+            counts[i][j2] = counts[i][j2].max(2_000_000_000);
+            rep.cover("class.position_total_above_2^32");
+            notes.push("one position holds counts near u32::MAX".to_string());
+        }
         notes.push(format!("CountMatrix::new(raw counts below {})", hi));
         rep.cover("source.raw_counts");
         let mut dm = DenseMatrix::<u32, A::K>::new(w);
